@@ -469,7 +469,10 @@ var c01Engine = &sim.Engine{
 	Stub:   []string{"io.Writer sink (SimWriter)", "io.Reader source (SimReader)", "pipes between pipeline stages (SimPipe)"},
 	Reimpl: []string{"cmd/benchfilter main loop (six lines) inside the filter task"},
 	Run: func(t *testing.T, r *sim.Run, tier string) {
-		switch r.T.Intn(4, "lane") {
+		switch r.T.Intn(5, "lane") {
+		case 4:
+			r.Lane = "pipeline"
+			c01LanePipeline(t, r)
 		case 0, 1:
 			r.Lane = "api"
 			c01LaneAPI(t, r, false)
@@ -522,4 +525,142 @@ func c01LaneText(t *testing.T, r *sim.Run) {
 	r.StateHash = sim.HashStr(string(sw.Buf))
 	r.Nontrivial = len(want) >= 2
 	_ = bytes.Equal
+}
+
+// c01LanePipeline: three tasks under the seeded scheduler, as in
+// `producer | benchfilter-like stage | consumer`: producer (API-built history
+// -> Writer) -> SimPipe -> stage (Reader -> edits through SetConfig -> Writer)
+// -> SimPipe -> consumer (Reader). Pipe capacities are drawn, so every chunk
+// boundary is a consequence of the schedule. Either pipe may be closed with an
+// error at a drawn record: the consumer must then see an exact prefix.
+func c01LanePipeline(t *testing.T, r *sim.Run) {
+	T := r.T
+	caps := []int{1, 2, 7, 64, 4096, 1 << 16}
+	n := T.Small(1, 25, "nrecords")
+	stageEdit := T.Intn(4, "stage-edit") // 0 none, 1 internal label, 2 delete a key, 3 both
+	delKey := sim.Pick(T, c01Keys, "stage-delkey")
+	failProducerAt, failStageAt := -1, -1
+	switch T.Intn(5, "pipe-fault") {
+	case 3:
+		failProducerAt = T.Intn(n+1, "producer-fail-at")
+	case 4:
+		failStageAt = T.Intn(n+1, "stage-fail-at")
+	}
+	var model []*mRec    // what the producer wrote (acknowledged)
+	var expected []*mRec // after the stage's edits
+	var got []*mRec
+	var gotErrs []string
+	var consumerErr error
+	stageSaw := 0
+	r.Bubble(t, 400000, func(s *sim.Sched) {
+		p1 := sim.NewSimPipe(r, caps[T.Intn(len(caps), "cap1")])
+		p2 := sim.NewSimPipe(r, caps[T.Intn(len(caps), "cap2")])
+		s.Go("producer", 0, func() {
+			h := &c01Hist{r: r, T: T, w: NewWriter(p1), metas: map[string]bool{}}
+			for i := 0; i < n; i++ {
+				if i == failProducerAt {
+					r.Fault("producer-dies-mid-stream")
+					p1.CloseWrite(sim.ErrInjected)
+					model = h.model
+					return
+				}
+				if !h.step() {
+					break
+				}
+			}
+			model = h.model
+			p1.CloseWrite(nil)
+		})
+		s.Go("stage", 1, func() {
+			rd := NewReader(p1, "stage-in")
+			w := NewWriter(p2)
+			for rd.Scan() {
+				rec := rd.Result()
+				if _, ok := rec.(*SyntaxError); ok {
+					r.Flag("roundtrip", "pipeline/syntax-error-in-stage", "stage read a syntax error from the producer's output: %v", rec)
+					continue
+				}
+				if stageSaw == failStageAt {
+					r.Fault("stage-dies-mid-stream")
+					p1.CloseRead(sim.ErrInjected)
+					p2.CloseWrite(sim.ErrInjected)
+					return
+				}
+				stageSaw++
+				if res, ok := rec.(*Result); ok {
+					if stageEdit&1 != 0 {
+						res.SetConfig("tool", "stage") // internal: must never reach the consumer
+					}
+					if stageEdit&2 != 0 {
+						res.SetConfig(delKey, "")
+					}
+				}
+				if err := w.Write(rec); err != nil {
+					p1.CloseRead(err)
+					return
+				}
+			}
+			if err := rd.Err(); err != nil {
+				p2.CloseWrite(err) // propagate the upstream failure
+				return
+			}
+			p2.CloseWrite(nil)
+		})
+		s.Go("consumer", 2, func() {
+			rd := NewReader(p2, "consumer-in")
+			for rd.Scan() {
+				switch rec := rd.Result().(type) {
+				case *SyntaxError:
+					gotErrs = append(gotErrs, rec.Error())
+				default:
+					got = append(got, modelOf(rec))
+				}
+			}
+			consumerErr = rd.Err()
+		})
+		s.Loop()
+		r.Probes["pipe stalls (full or empty)"] += p1.Stalls + p2.Stalls
+	})
+	if r.Failed() {
+		return
+	}
+	for _, m := range model {
+		e := *m
+		if !m.meta && stageEdit&2 != 0 {
+			e.cfg = map[string]string{}
+			for k, v := range m.cfg {
+				if k != delKey {
+					e.cfg[k] = v
+				}
+			}
+		}
+		expected = append(expected, &e)
+	}
+	faulted := failProducerAt >= 0 || failStageAt >= 0
+	// with a fault the consumer sees a prefix (the torn tail may add a syntax error or a truncated last record)
+	want := expected
+	if faulted && len(got) < len(want) {
+		want = want[:len(got)]
+		if len(gotErrs) == 0 && len(got) > 0 {
+			// the last record may be a prefix-truncated line; compare all but the last exactly
+			want, got = want[:len(want)-1], got[:len(got)-1]
+		}
+	}
+	if faulted {
+		if len(got) > len(expected) {
+			r.Fail("roundtrip", "pipeline/extra-record", "consumer read %d records, only %d were written", len(got), len(expected))
+		}
+		if consumerErr == nil && len(got) < len(expected) && failProducerAt != len(model) {
+			// a died stage/producer must surface as an error at the consumer, not as a clean short stream
+			r.Fail("roundtrip", "pipeline/failure-looks-like-clean-eof", "a stage died mid-stream (producer at %d, stage at %d) but the consumer saw a clean end after %d of %d records", failProducerAt, failStageAt, len(got), len(expected))
+		}
+		c01Compare(r, "pipeline", want, got[:len(want)], nil, nil, true)
+	} else {
+		if consumerErr != nil {
+			r.Fail("roundtrip", "pipeline/unexpected-error", "consumer reader reported %v", consumerErr)
+		}
+		c01Compare(r, "pipeline", want, got, gotErrs, nil, false)
+	}
+	r.StateHash = sim.HashStr(fmt.Sprint(len(model), len(got), stageEdit, faulted))
+	r.Nontrivial = len(got) >= 2
 }
